@@ -281,3 +281,9 @@ func (c *Ctx) finish(prop, level string, found []Found, judge Judge, keyFn func(
 
 var _ = rand.Uint64
 var _ = verifsim.Plan{}
+
+// refOK: does the clean-tree reference of the world succeed?
+func (c *Ctx) refOK(w *World) bool {
+	ref, err := c.Ref(w.Module, withGoMod(w), RefOpts{Globals: w.Globals, BuildTags: w.BuildTags, OutputConstraint: w.OutputConstraint, Patterns: w.Patterns})
+	return err == nil && ref.Exit == 0
+}
